@@ -136,6 +136,16 @@ func buildWithBuilders(w *WFlag) ldmodel.FeatureFlag {
 		b.MigrationFlagParameters(mb.Build())
 	}
 	flag := b.Build()
+	if hashStr("twice/"+w.Key+fmt.Sprint(len(w.Rules), len(w.Targets)))%3 == 0 {
+		// a builder is not used up by Build: building again (for a new version, say) gives an equal
+		// value, and leaves the first one as it was
+		before := deepDump(&flag)
+		again := b.Version(w.Meta.Version).Build()
+		if deepDump(&again) != before || deepDump(&flag) != before {
+			panic("ldbuilders: a second Build() of the same builder differs from the first or changed it: " + firstDiff(before, deepDump(&again)) + firstDiff(before, deepDump(&flag)))
+		}
+		flag = again
+	}
 	// AddTarget cannot give a legacy target list a context kind; the data model can
 	patched := false
 	for i, t := range w.Targets {
@@ -250,7 +260,16 @@ func buildSegmentWithBuilders(w *WSegment) ldmodel.Segment {
 		}
 		b.AddRule(rb)
 	}
-	return b.Build()
+	seg := b.Build()
+	if hashStr("twice/"+w.Key+fmt.Sprint(len(w.Rules), len(w.Inc)))%3 == 0 {
+		before := deepDump(&seg)
+		again := b.Version(w.Version).Build()
+		if deepDump(&again) != before || deepDump(&seg) != before {
+			panic("ldbuilders: a second Build() of the same segment builder differs from the first or changed it: " + firstDiff(before, deepDump(&again)) + firstDiff(before, deepDump(&seg)))
+		}
+		seg = again
+	}
+	return seg
 }
 
 // sanitizeForBuilders restricts a generated flag to what the schema can express exactly.
@@ -295,8 +314,29 @@ func clampInt(n int) int {
 	return n
 }
 
+func ptrJV(v JV) *JV { return &v }
+
+// hkey: a 64-bit stand-in for a long string used only to count distinct values.
+func hkey(s string) string { return fmt.Sprintf("%016x", hashStr(s)) }
+
+// unrawJV: JSON cannot carry an unparsed value; an expressible configuration has the parsed one.
+func unrawJV(v *JV) {
+	for v.K == 'r' && len(v.A) == 1 {
+		*v = v.A[0]
+	}
+	for i := range v.A {
+		unrawJV(&v.A[i])
+	}
+	for i := range v.O {
+		unrawJV(&v.O[i].V)
+	}
+}
+
 func sanitizeClauses(cs []WClause) {
 	for i := range cs {
+		for j := range cs[i].Vals {
+			unrawJV(&cs[i].Vals[j])
+		}
 		if cs[i].Op == "segmentMatch" && cs[i].Attr.Ctor != "" {
 			cs[i].Attr = sanitizeRef(cs[i].Attr, cs[i].CK) // an attribute on a segmentMatch clause: keep it, but expressible
 		}
@@ -347,6 +387,15 @@ func sanitizeFlag(f *WFlag) {
 	if !f.Meta.CSA.Explicit {
 		f.Meta.CSA.Mobile = true
 	}
+	for i := range f.Vars {
+		unrawJV(&f.Vars[i])
+	}
+	// integers beyond 2^53 are outside what the codec can express: go-jsonstream reads integer
+	// members through float64 (measured: version 2^63-1 decodes as -2^63, 2^53+1 as 2^53)
+	f.Meta.Version = clampInt(f.Meta.Version)
+	for i := range f.Prereqs {
+		f.Prereqs[i].V = clampInt(f.Prereqs[i].V)
+	}
 }
 
 func sanitizeSegment(s *WSegment) {
@@ -356,6 +405,10 @@ func sanitizeSegment(s *WSegment) {
 		if s.Rules[i].Weight != nil {
 			*s.Rules[i].Weight = clampInt(*s.Rules[i].Weight)
 		}
+	}
+	s.Version = clampInt(s.Version)
+	if s.Gen != nil {
+		*s.Gen = clampInt(*s.Gen)
 	}
 }
 
@@ -434,7 +487,7 @@ func (t *relTotals) roundTripFlag(stream string, doc JV, ec *EvalCase) {
 		return
 	}
 	t.counts[stream+"/accepted"]++
-	t.distinct[flagDumpJSON(&v)] = true
+	t.distinct[hkey(flagDumpJSON(&v))] = true
 	e1, err1 := ser.MarshalFeatureFlag(v)
 	if err1 != nil {
 		t.violation(stream, "accepted flag cannot be encoded: "+err1.Error(), map[string]any{"doc": docText(doc)})
@@ -456,7 +509,14 @@ func (t *relTotals) roundTripFlag(stream string, doc JV, ec *EvalCase) {
 	}
 	if !sameJSONBytes(e1, e2) || d1 != d2 {
 		// open finding F5: a negative debugEventsUntilDate wraps around and needs two steps
-		if dv := doc.get("debugEventsUntilDate"); dv != nil && dv.K == 'n' && dv.N < 0 && onlyDebugDiffers(&v, &v2) {
+		// (a member may occur twice in a document: the decoder keeps the last one)
+		var dv *JV
+		for i := range doc.O {
+			if doc.O[i].K == "debugEventsUntilDate" {
+				dv = &doc.O[i].V
+			}
+		}
+		if dv != nil && dv.K == 'n' && dv.N < 0 && onlyDebugDiffers(&v, &v2) {
 			if k := knownFor("C15", "debugEventsUntilDate-negative"); k != nil {
 				if !t.knownSeen[k.id] {
 					t.knownSeen[k.id] = true
@@ -562,7 +622,7 @@ func (t *relTotals) roundTripSegment(stream string, doc JV) {
 		return
 	}
 	t.counts[stream+"/accepted"]++
-	t.distinct[segDumpJSON(&v)] = true
+	t.distinct[hkey(segDumpJSON(&v))] = true
 	e1, err1 := ser.MarshalSegment(v)
 	if err1 != nil {
 		t.violation(stream, "accepted segment cannot be encoded", map[string]any{"doc": docText(doc)})
@@ -664,10 +724,10 @@ func checkC15(seed uint64, replayDir, corpusDir string) (map[string]any, int) {
 					return
 				}
 				if flagDumpJSON(&v)+builderDeep(&v) != flagDumpJSON(&v2)+builderDeep(&v2) {
-					t.violation("builders", "decode(encode(v)) differs from the builder-built v", map[string]any{"flag": wf, "encoded": string(e), "first_difference": firstDiff(deepDump(&v), deepDump(&v2)),
+					t.violation("builders", "decode(encode(v)) differs from the builder-built v", map[string]any{"flag": wf, "encoded": string(e), "first_difference": firstDiff(builderDeep(&v), builderDeep(&v2)),
 						"v": json.RawMessage(flagDumpJSON(&v)), "rt": json.RawMessage(flagDumpJSON(&v2))})
 				}
-				t.distinct["b:"+flagDumpJSON(&v)] = true
+				t.distinct[hkey("b:"+flagDumpJSON(&v))] = true
 			})
 			ws := g2.segment("bs", segKeyPool)
 			if r.chance(1, 15) {
@@ -686,7 +746,7 @@ func checkC15(seed uint64, replayDir, corpusDir string) (map[string]any, int) {
 					return
 				}
 				if segDumpJSON(&v)+builderDeep(&v) != segDumpJSON(&v2)+builderDeep(&v2) {
-					t.violation("builders", "decode(encode(v)) differs from the builder-built segment", map[string]any{"segment": ws, "encoded": string(e), "first_difference": firstDiff(deepDump(&v), deepDump(&v2))})
+					t.violation("builders", "decode(encode(v)) differs from the builder-built segment", map[string]any{"segment": ws, "encoded": string(e), "first_difference": firstDiff(builderDeep(&v), builderDeep(&v2))})
 				}
 			})
 		}
@@ -802,7 +862,7 @@ func checkC16(seed uint64, replayDir, corpusDir string) (map[string]any, int) {
 			if msg := ejDecodeAgrees(outs[0], true, flagDumpJSON(&vals[0])); msg != "" {
 				t.violation("paths-easyjson", msg, map[string]any{"flag": wf})
 			}
-			t.distinct[string(outs[0])] = true
+			t.distinct[hkey(string(outs[0]))] = true
 			t.sample(map[string]any{"encoded": string(outs[0])})
 		})
 		recovering(t, "paths", func() map[string]any { return map[string]any{"segment": ws} }, func() {
@@ -833,7 +893,7 @@ func checkC16(seed uint64, replayDir, corpusDir string) (map[string]any, int) {
 			if msg := ejDecodeAgrees(outs[0], false, segDumpJSON(&vals[0])); msg != "" {
 				t.violation("paths-easyjson", msg, map[string]any{"segment": ws})
 			}
-			t.distinct[string(outs[0])] = true
+			t.distinct[hkey(string(outs[0]))] = true
 		})
 		f2, s2 := wf, ws
 		units = append(units, &UnitCase{ID: fmt.Sprintf("C16/encflag/%d/%d", seed, i), Kind: "encflag", Flag: &f2},
@@ -921,8 +981,20 @@ func checkC17(seed uint64, replayDir, corpusDir string) (map[string]any, int) {
 	n := 5000 * tierScale()
 	base := newRng(seed ^ hashStr("C17"))
 	var units []*UnitCase
-	relN := 0
+	ut := newUnitTotals()
 	relSeen := map[uint64]bool{}
+	// the documents for the model go out in batches (a thorough run makes millions of them)
+	flush := func() {
+		outs := runUnitBatch(units)
+		for i := range outs {
+			ut.tally("C17", outs[i].c.Kind, &outs[i])
+		}
+		units = units[:0]
+		if len(relSeen) > 2000000 {
+			relSeen = map[uint64]bool{}
+		}
+	}
+	relN := 0
 	rel := func(stream, what, kind string, a, b JV) {
 		// both documents of the pair also go to the model's decoder (a relation between two
 		// decodings holds just as well when both are wrong in the same way)
@@ -950,7 +1022,7 @@ func checkC17(seed uint64, replayDir, corpusDir string) (map[string]any, int) {
 				return
 			}
 			if oka {
-				t.distinct[stream+da] = true
+				t.distinct[hkey(stream+da)] = true
 			}
 			t.sample(map[string]any{"relation": stream, "what": what, "a": docText(a), "b": docText(b)})
 		})
@@ -961,7 +1033,40 @@ func checkC17(seed uint64, replayDir, corpusDir string) (map[string]any, int) {
 		units = append(units, &UnitCase{ID: fmt.Sprintf("C17/decflag/top/%d", i), Kind: "decflag", Doc: &d1},
 			&UnitCase{ID: fmt.Sprintf("C17/decseg/top/%d", i), Kind: "decseg", Doc: &d2})
 	}
+	// every member of every object of one fully populated flag and segment document, replaced in turn
+	// by null, {}, [], a string, a number, a boolean — and dropped: the decoder's tolerance position
+	// by position, enumerated rather than sampled
+	for _, kd := range []struct{ kind, text, unit string }{{"flag", richFlagDoc, "decflag"}, {"segment", richSegmentDoc, "decseg"}} {
+		full, err := parseTree([]byte(kd.text))
+		if err != nil {
+			fatalf("rich document does not parse: %v", err)
+		}
+		count := len(allObjects(kd.kind, &full))
+		for oi := 0; oi < count; oi++ {
+			nm := len(allObjects(kd.kind, &full)[oi].o.O)
+			for mi := 0; mi < nm; mi++ {
+				for vi, repl := range []*JV{nil, ptrJV(jNull()), ptrJV(jObj()), ptrJV(jArr()), ptrJV(jStr("x")), ptrJV(jNum(1)), ptrJV(jBool(true))} {
+					d := cloneJV(full)
+					o := allObjects(kd.kind, &d)[oi].o
+					if repl == nil {
+						o.O = append(append([]KV{}, o.O[:mi]...), o.O[mi+1:]...)
+					} else {
+						o.O[mi].V = *repl
+					}
+					units = append(units, &UnitCase{ID: fmt.Sprintf("C17/%s/enum/%d/%d/%d", kd.unit, oi, mi, vi), Kind: kd.unit, Doc: &d})
+					t.evaluations++
+					t.counts["enumerated"]++
+					if msg := byteRobustness(kd.kind, d.plainJSON()); msg != "" {
+						t.violation("bytes", msg, map[string]any{"text": string(d.plainJSON())})
+					}
+				}
+			}
+		}
+	}
 	for i := 0; i < n; i++ {
+		if len(units) > 150000 {
+			flush()
+		}
 		r := base.fork()
 		g := &gen{r: r, p: profiles[pick(r, []string{"wellformed", "malformed", "rollouts", "segments"})]}
 		wf := g.flag("f", flagKeyPool, segKeyPool)
@@ -1004,11 +1109,7 @@ func checkC17(seed uint64, replayDir, corpusDir string) (map[string]any, int) {
 			}
 		}
 	}
-	ut := newUnitTotals()
-	outs := runUnitBatch(units)
-	for i := range outs {
-		ut.tally("C17", outs[i].c.Kind, &outs[i])
-	}
+	flush()
 	nv := reportUnitDisagreements("C17", append(t.dis, ut.dis...), replayDir)
 	return t.frag("valid documents under unknown-property insertion, member permutation, null-vs-omission (listed properties at their positions) and omission-vs-default; corrupted/duplicated documents decoded by model and real decoder; mutated/truncated byte strings through every decode path (no panic, error => zero value, destination untouched, accepted => re-encodable); non-trivial = distinct accepted decodings", ut), nv
 }
